@@ -341,7 +341,7 @@ package godi
 //@   ensures[C02] scoped_created_for_descriptor: d != nil && d.Lifetime == Scoped && ncalls("scope.createInstance") == 1 ==> callarg("scope.createInstance", 0, 0) == s && callarg("scope.createInstance", 0, 1) == d
 //@        && result0 == callret("scope.createInstance", 0, 0) || result0 == nil
 //@   ensures[C03] transient_always_creates: d != nil && d.Lifetime == Transient ==> ncalls("scope.createInstance") == 1 && callarg("scope.createInstance", 0, 0) == s && callarg("scope.createInstance", 0, 1) == d
-//@        && result0 == callret("scope.createInstance", 0, 0) && result1 == callret("scope.createInstance", 0, 1)
+//@        && (result1 == callret("scope.createInstance", 0, 1) || result1 == ErrScopeDisposed) && (result0 == callret("scope.createInstance", 0, 0) || result0 == nil)
 //@        && ncalls("scope.instancesMu.RLock") == 0 && ncalls("provider.singletons.Load") == 0
 //@   ensures[C13] overlapping_close_reports_the_disposed_error: ncalls("scope.createInstance") == 1 && callret("scope.createInstance", 0, 1) == nil ==> ncalls("atomic.Load:disposed") == 1
 //@        && (callret("atomic.Load:disposed", 0, 0, "int32") != 0 ==> result0 == nil && result1 == ErrScopeDisposed)
